@@ -343,6 +343,22 @@ func genC09(r *rand.Rand, run int, tier string) *vm.Plan {
 			h.add(vm.Op{K: "verify", A: x, KS: &vm.KeySel{Key: key}, Az: &az, Lim: &vm.Lim{MaxDurNs: 1e9}})
 		}
 	}
+	// the holder that seals may have received the token over the wire: seal the reloaded object,
+	// send that, reload again (sealed form must survive; it must stay frozen)
+	if r.Intn(2) == 0 {
+		tr := h.receive(tb, false)
+		h.tokKey[tr] = key
+		s2 := h.seal(tr)
+		h.tokKey[s2] = key
+		rs2 := h.receive(h.send(s2), false)
+		h.tokKey[rs2] = key
+		az := h.az[0]
+		for _, x := range []int{tr, s2, rs2} {
+			h.add(vm.Op{K: "verify", A: x, KS: &vm.KeySel{Key: key}, Az: &az, Lim: &vm.Lim{MaxDurNs: 1e9}})
+		}
+		h.add(vm.Op{K: "attenuate", A: rs2, Blk: blkp(h.g.Block(1, 1, 1)), Ent: entropy(r), Out: h.slot()})
+		h.add(vm.Op{K: "seal", A: rs2, Out: h.slot()})
+	}
 	// the same root key must also be found through the token's root key id
 	if id := h.ids[key]; id != nil {
 		az := h.az[0]
@@ -437,8 +453,27 @@ func genC16(r *rand.Rand, run int, tier string) *vm.Plan {
 			mb := h.add(vm.Op{K: "mut", A: b, Muts: []vm.Mut{{Kind: "rootid", Val: []int{-1, 0, 1, 2, 3}[r.Intn(5)]}}, Out: h.slot()})
 			t = h.receive(mb, false)
 		}
+		// boundary configurations: a default key that is configured but nil / empty, ids registered with an empty key
+		if r.Intn(8) == 0 {
+			ks.DefEmpty = true
+		}
+		if r.Intn(8) == 0 {
+			ks.Empty = append(ks.Empty, ids[r.Intn(len(ids))])
+		}
 		az := h.az[0]
 		h.add(vm.Op{K: "verify", A: t, KS: ks, Az: &az, Lim: &vm.Lim{MaxDurNs: 1e9}})
+		// the verifier rotates one of its registered keys in place and is asked again about the same token object
+		if r.Intn(5) == 0 && (len(ks.Map) > 0 || ks.Def > 0) {
+			slot := ks.Def
+			if len(ks.Map) > 0 && (slot == 0 || r.Intn(2) == 0) {
+				slot = ks.Map[r.Intn(len(ks.Map))].Key
+			}
+			if slot > 0 {
+				h.add(vm.Op{K: "keyrot", A: slot, B: h.attacker})
+				h.add(vm.Op{K: "verify", A: t, KS: ks, Az: &az, Lim: &vm.Lim{MaxDurNs: 1e9}})
+				break // the rotated slot no longer belongs to an issuer: end of this history
+			}
+		}
 	}
 	return h.p
 }
